@@ -10,7 +10,12 @@ command -v $GO >/dev/null 2>&1 || GO=/opt/veriftools/go1.26.8/bin/go
 bin="bin/simcheck.r$$"
 mkdir -p bin
 $GO test -c -vet=off -tags verif -o "$bin" ./cmd/simcheck || { echo "infrastructure trouble: build failed"; exit 2; }
-"./$bin" replay "$f"
+fbin=""
+if grep -q '"engine": "F"' "$f"; then
+  fbin="$PWD/bin/simcheck-f.r$$"
+  ../tools/build_f.sh "$fbin" > /dev/null 2>&1 || { echo "infrastructure trouble: the instrumented (Engine F) build failed"; rm -f "$bin"; exit 2; }
+fi
+VERIF_F_BIN="$fbin" "./$bin" replay "$f"
 rc=$?
-rm -f "$bin"
+rm -f "$bin" "$fbin"
 exit $rc
